@@ -5,3 +5,5 @@ open Photon.ObjCache
 #print axioms C19_acquire_returns_live
 #print axioms C19_recycle_waits_all
 #print axioms C19_referenced_is_live
+#print axioms C19_no_poison_beyond_cooldown
+#print axioms C19_lastFail_only_from_failed_ctor
